@@ -28,7 +28,9 @@ impl<F: Field> PolynomialCoeffs<F> {
             let rev_q: Self = (&rev_b_inv * &rhs).coeffs[..=a_degree_plug_1 - b_degree_plus_1]
                 .to_vec()
                 .into();
-            let mut q = rev_q.rev();
+            // Reverse all `deg a - deg b + 1` coefficients: `rev()` would first drop the zero
+            // high-order coefficients of `rev_q`, which are the low-order ones of `q`.
+            let mut q: Self = rev_q.coeffs.iter().rev().copied().collect::<Vec<_>>().into();
             let qb = &q * b;
             let mut r = self - &qb;
             q.trim();
@@ -121,10 +123,8 @@ impl<F: Field> PolynomialCoeffs<F> {
             tmp.coeffs.iter_mut().for_each(|x| *x = -(*x));
             tmp.trim();
             let mut b = &a * &tmp;
-            b.trim();
-            if b.len() > l {
-                b.coeffs.drain(l..);
-            }
+            // The next block of the inverse has exactly `l` coefficients, zero ones included.
+            b.coeffs.resize(l, F::ZERO);
             a.coeffs.extend_from_slice(&b.coeffs);
         }
         a.coeffs.drain(n..);
